@@ -464,7 +464,7 @@ func (h c18ReqHook) Run(e *zerolog.Event, l zerolog.Level, m string) {
 func (c18World) Run(prop string, ch *zsim.Choices, trace bool) *RunResult {
 	r := &c18Run{ch: ch, cur: map[int]*c18Req{}}
 	oldTS := zerolog.TimestampFunc
-	defer func() { zerolog.TimestampFunc = oldTS }()
+	defer func() { zerolog.TimestampFunc = oldTS; zerolog.DefaultContextLogger = nil }()
 	summary := ""
 	hasAccess := false
 	nAccess := 0
@@ -477,6 +477,13 @@ func (c18World) Run(prop string, ch *zsim.Choices, trace bool) *RunResult {
 		sink := c18Sink{r}
 		pk := ch.Intn(7)
 		parent := mkParent(pk, sink)
+		if ch.Chance(1, 4) {
+			// the application's fallback logger for contexts without one is the very logger the
+			// middleware is given: every request still gets a logger of its own
+			dl := parent
+			zerolog.DefaultContextLogger = &dl
+			zsim.Probe("default_context_logger_is_parent")
+		}
 		np := ch.Intn(8)
 		var picks []int
 		for i := 0; i < np; i++ {
@@ -514,7 +521,7 @@ func (c18World) Run(prop string, ch *zsim.Choices, trace bool) *RunResult {
 		}
 		R := 2 + ch.Intn(4)
 		for i := 0; i < R; i++ {
-			req, _ := http.NewRequest([]string{"GET", "POST", "PUT", "DELETE", "PATCH"}[i%5], fmt.Sprintf("http://host%d.example:80%d/path/%d?q=%d", i, i, i, i), nil)
+			req, _ := http.NewRequest([]string{"GET", "POST", "PUT", "HEAD", "DELETE", "PATCH", "OPTIONS"}[(i+ch.Intn(7))%7], fmt.Sprintf("http://host%d.example:80%d/path/%d?q=%d", i, i, i, i), nil)
 			// remote addresses and hosts in every notation a server or a RealIP middleware leaves
 			// behind: host:port, bracketed IPv6 with port, bare IPv6, bare IPv4
 			req.RemoteAddr = []string{
